@@ -2,6 +2,10 @@
 #![no_main]
 use libfuzzer_sys::fuzz_target;
 
+// the oracle's memory facets (peak live bytes, allocation count) need the counting allocator
+#[global_allocator]
+static GLOBAL: stamverif::props::c19::alloc::CountingAlloc = stamverif::props::c19::alloc::CountingAlloc;
+
 fuzz_target!(init: { stamverif::props::c19::fuzz_init(); }, |data: &[u8]| {
     stamverif::props::c19::fuzz_one("c19_json", data);
 });
